@@ -92,6 +92,12 @@ func C12(c *Ctx) {
 	c.wrapperEffects("C12-R7", false)
 	c.R.Rule("C12-R8", "E7", "compiling a source leaves the source object alone", 1)
 	c12SourceCompile(c)
+	c.R.Rule("C12-R9", "E1", "scripts get copies: machines that share a spec and a message cannot write each other's data through a script", 1)
+	if ea, _ := c.ecmaAnalysis(); ea != nil {
+		if c.scriptIsolation("C12-R9", ea, false) == 0 {
+			c.R.Break("C12-R9: no value handed to the script runtime found")
+		}
+	}
 
 	a, step, walk := c.stepWalkAnalysis()
 	if a == nil {
